@@ -124,6 +124,7 @@ func c08Run(c *mon.Ctx, r *mon.Rand) {
 		sc := root.SubScope(fmt.Sprintf("s%d", i))
 		gms[i] = &gm{ctr: sc.Counter("c"), g: sc.Gauge("g"), h: sc.Histogram("h", tally.ValueBuckets{}), name: fmt.Sprintf("s%d", i)}
 	}
+	lateOldSub, lateOldTagged := root.SubScope("old"), root.Tagged(map[string]string{"old": "1"})
 	ngScope := root.SubScope("ng")
 	ngCtr := []tally.Counter{ngScope.Counter("a"), ngScope.Counter("b")}
 	ngGauge := ngScope.Gauge("g")
@@ -220,6 +221,16 @@ func c08Run(c *mon.Ctx, r *mon.Rand) {
 		late.Gauge("y").Update(1)
 		late.Histogram("z", nil).RecordDuration(time.Second)
 		root.Tagged(map[string]string{"late": "1"}).Counter("x").Inc(1)
+		// every way of deriving a scope after Close must give an inert scope,
+		// from the root and from handles obtained before the Close
+		oldSub, oldTagged := lateOldSub, lateOldTagged
+		for _, sc := range []tally.Scope{root.Tagged(nil), root.Tagged(map[string]string{}), root.SubScope(""), oldSub.Tagged(nil), oldSub.SubScope("x"), oldTagged.Tagged(map[string]string{}), oldTagged.SubScope("")} {
+			sc.Counter("late-c").Inc(1)
+			sc.Gauge("late-g").Update(1)
+			sc.Timer("late-t").Record(time.Second)
+			sc.Histogram("late-h", tally.ValueBuckets{1}).RecordValue(1)
+			sc.Timer("late-t").Start().Stop()
+		}
 		gms[0].ctr.Inc(1)
 		gms[0].g.Update(5)
 		gms[0].h.RecordValue(1)
@@ -285,6 +296,10 @@ func c08Run(c *mon.Ctx, r *mon.Rand) {
 				continue
 			}
 			lastFlush = ev.Seq
+		case mon.EvAllocCounter, mon.EvAllocGauge, mon.EvAllocTimer, mon.EvAllocHist:
+			if ev.Seq > M {
+				bad("allocation-after-close-returned", fmt.Sprintf("%s %q allocated on the reporter after Close had returned (a scope obtained after Close is not inert)", ev.Kind, ev.Name))
+			}
 		case mon.EvClose:
 			closeEvents++
 			closeSeq = ev.Seq
